@@ -39,7 +39,8 @@ WEIRD_LABELS = [{'s': 'fair'}, {'s': 'fair0'}, {'s': 'fair1'}, {'i': 7},
                 {'t': []}, {'s': 'false'}, {'b': True}, {'n': None}]
 
 WEIRD_ATOMS = ['not', 'A', 'U', 'true', '(p or q)', '', 'p q', 'fair',
-               'fair0', '[p]', 'zz', 'E(G(p))', 'X']
+               'fair0', '[p]', 'zz', 'E(G(p))', 'X', 'p  q', 'p\tq', ' p',
+               'fair1']
 
 
 def _ident(a):
@@ -74,7 +75,10 @@ def gen_plan(seed, prop, faults, nested=False):
         'nmax': rng.choice([4, 4, 4, 6]),
         'natoms': rng.choice([2, 3]),
         'weird_labels': rng.random() < (0.7 if prop == 'C19' else 0.35),
-        'weird_atoms': prop == 'C19' and rng.random() < 0.5,
+        'weird_atoms': rng.random() < (0.5 if prop == 'C19' else 0.3),
+        'large': rng.random() < 0.12,
+        'feedback': rng.random() < 0.25,
+        'fb_seed': rng.getrandbits(32),
         'hetero_states': rng.random() < (0.8 if prop == 'C19' else 0.5),
         'logics': rng.choice([['CTL', 'CTLS', 'LTL'], ['CTL', 'CTLS'],
                               ['CTLS', 'LTL'], ['CTL'], ['CTLS'],
@@ -95,8 +99,12 @@ def gen_plan(seed, prop, faults, nested=False):
             if rng.random() < 0.3:
                 fa.append('zz')          # an atom absent from every structure
             if cfg['fair'] and rng.random() < 0.3:
-                # an atom named like the internal fairness label
-                fa.append(rng.choice(['fair', 'fair', 'fair0']))
+                # atoms named like the internal fairness label(s)
+                if rng.random() < 0.5:
+                    fa.append(rng.choice(['fair', 'fair', 'fair0']))
+                else:
+                    fa = fa[:1] + ['fair', 'fair0'] + \
+                        (['fair1'] if rng.random() < 0.3 else [])
             if cfg['weird_atoms'] and rng.random() < 0.5:
                 fa = fa + rng.sample(WEIRD_ATOMS, 2)
             tmax = 2 if logic != 'CTL' else 3
@@ -106,9 +114,31 @@ def gen_plan(seed, prop, faults, nested=False):
             else:
                 tree = gen.gen_formula(rng, logic, fa, d, tmax,
                                        rng.choice([0.05, 0.15]))
-            text_ok = all(_ident(a) for a in core.formula_atoms(tree))
             formulas.append({'logic': logic, 'tree': tree,
-                             'text_ok': text_ok})
+                             'text_ok': core.text_writable(tree)})
+    if cfg['weird_atoms'] and rng.random() < 0.5:
+        # two formulas that differ in one atom only, the atoms differing in
+        # white space only ("p q" / "p  q"): distinct propositions
+        base = rng.choice(formulas)
+        ats = core.formula_atoms(base['tree'])
+        if ats:
+            a = rng.choice(ats)
+            for tw in ('p q', 'p  q'):
+                t2 = core.rename_atoms(base['tree'], {a: tw})
+                formulas.append({'logic': base['logic'], 'tree': t2,
+                                 'text_ok': True, 'twin': tw})
+            cfg['twins'] = True
+    if cfg['large']:
+        # shapes that matter on a large structure with a unique marker
+        for t2 in (['ap', 'u'], ['E', ['X', ['ap', 'u']]],
+                   ['A', ['X', ['Not', ['ap', 'u']]]],
+                   ['E', ['F', ['E', ['X', ['ap', 'u']]]]],
+                   ['E', ['U', ['ap', 'p'], ['ap', 'u']]]):
+            formulas.append({'logic': 'CTL', 'tree': t2, 'text_ok': True,
+                             'large_ok': True})
+    for f in formulas:
+        if f['logic'] == 'CTL' and 'mc' not in f:
+            f['large_ok'] = True
     if cfg['illformed']:
         # queries that must be rejected with TypeError (documented behaviour)
         bad = [
@@ -184,18 +214,54 @@ def gen_plan(seed, prop, faults, nested=False):
         if cfg['fair'] and rng.random() < 0.3:
             for i in rng.sample(range(n), rng.randint(1, n)):
                 labs[i].append({'s': rng.choice(['fair', 'fair', 'fair0'])})
+        if cfg.get('twins'):
+            for i in range(n):
+                if rng.random() < 0.4:
+                    labs[i].append({'s': rng.choice(['p q', 'p  q'])})
         structs.append({'A': A, 'family': fam, 'smap': smap, 'labs': labs,
                         'F': F,
                         'S0': sorted(rng.sample(range(n),
                                                 rng.randint(0, n)))})
+    if cfg['large']:
+        n = rng.randint(32, 45)
+        A = gen.gen_abstract_kripke(rng, n, atoms, 0.2,
+                                    rng.choice(['random', 'fairfriendly',
+                                                'cycle']))
+        while A['n'] < 32:
+            A = gen.gen_abstract_kripke(rng, n, atoms, 0.2, 'random')
+        n = A['n']
+        fam = rng.choice(['int', 'str', 'tuple', 'permint'])
+        if fam == 'permint':
+            smap = [{'i': v} for v in rng.sample(range(-5, 200), n)]
+        elif fam == 'str':
+            smap = [{'s': 's{}'.format(v)} for v in rng.sample(range(500), n)]
+        elif fam == 'tuple':
+            smap = [{'t': [{'s': 's'}, {'i': v}]}
+                    for v in rng.sample(range(500), n)]
+        else:
+            smap = [{'i': v} for v in range(n)]
+        labs = [[{'s': a} for a in A['lab'][i]] for i in range(n)]
+        labs[rng.randrange(n)].append({'s': 'u'})     # a unique marker
+        structs.append({'A': A, 'family': fam, 'smap': smap, 'labs': labs,
+                        'F': [], 'S0': [], 'large': True})
     # operations -----------------------------------------------------------
     ops = []
     calls = []        # indices of ops that are calls
+
+    large_ok = [fi for fi, f in enumerate(formulas) if f.get('large_ok')]
 
     def gen_query():
         fi = rng.randrange(len(formulas))
         f = formulas[fi]
         ki = rng.randrange(len(structs))
+        if structs[ki].get('large'):
+            # large structures are only queried through CTL (the tableau
+            # checkers are exponential)
+            if large_ok and rng.random() < 0.8:
+                fi = rng.choice(large_ok)
+                f = formulas[fi]
+            else:
+                ki = rng.randrange(len(structs) - 1)
         q = {'k': ki, 'f': fi, 'mc': f.get('mc', f['logic']),
              'form': 'obj', 'F': None, 'parser': 'none'}
         if f['text_ok'] and rng.random() < 0.3:
@@ -225,6 +291,9 @@ def gen_plan(seed, prop, faults, nested=False):
             if rng.random() < 0.3:
                 # same formula, other structure
                 q['k'] = rng.randrange(len(structs))
+                if structs[q['k']].get('large') and \
+                        not formulas[q['f']].get('large_ok'):
+                    q['k'] = 0
                 if q['F'] is not None and not structs[q['k']]['F']:
                     q['F'] = None
                 elif q['F'] is not None:
@@ -458,9 +527,11 @@ def execute(plan):
             raise core.HarnessError('pristine child: {} {}'.format(st, r))
         pristine[k] = r
     wellformed = {}
+    inlogic = {}
     for k, q in distinct.items():
         f = plan['formulas'][q['f']]
         wellformed[k] = ('mc' not in f) and q['F'] is None
+        inlogic[k] = 'mc' not in f
 
     results = {}          # op index -> [set object, value at return, mutated]
     events = []
@@ -630,6 +701,14 @@ def execute(plan):
                 raise Violation('C19/K1-internal-error',
                                 'op {}: well-formed query raised {}'
                                 .format(i, out[1]))
+            if out[0] == 'raise' and inlogic[k] and out[1] not in (
+                    'TypeError', 'UnexpectedToken', 'UnexpectedCharacters'):
+                # with F given TypeError is the library's (documented)
+                # rejection and C15's business; anything else is an
+                # internal error on a formula of the called logic
+                raise Violation('C19/K1-internal-error',
+                                'op {}: query with fairness constraints '
+                                'raised {}'.format(i, out[1]))
             if out[0] == 'nonset':
                 raise Violation('C19/K2-not-a-set',
                                 'op {}: returned a {}'.format(i, out[1]))
@@ -760,6 +839,109 @@ def execute(plan):
 
 
 # ---------------------------------------------------------------------------
+# name feedback: a plan transformation executed in an isolated child
+
+def materialise_feedback(plan):
+    """Harvest the names the library generates internally while it answers
+    the plan's queries (strings returned by non-dunder repository functions
+    that are neither labels nor atoms of the pool: fresh atoms, the fairness
+    label), then extend the plan with formulas that use those very names as
+    ordinary atomic propositions - a user may call a proposition anything.
+    Deterministic given the plan and the code; the extended plan is explicit
+    (it is what replay files contain)."""
+    core.assert_repo_import()
+    pool = Pool(plan)
+    pred = _trace_pred()
+    known = set()
+    for f in plan['formulas']:
+        known.update(core.formula_atoms(f['tree']))
+    for K in pool.K:
+        for labs in K._labels.values():
+            for x in labs:
+                if isinstance(x, str):
+                    known.add(x)
+        for st in K._next:
+            if isinstance(st, str):
+                known.add(st)
+    harvested = []
+
+    def local(frame, event, arg):
+        if event == 'return' and isinstance(arg, str) and \
+                not frame.f_code.co_name.startswith('__') and \
+                len(arg) <= 40 and arg not in known and \
+                arg not in harvested and 'expected' not in arg and \
+                core.atom_text(arg) is not None:
+            harvested.append(arg)
+        return local
+
+    def glob(frame, event, arg):
+        if pred(frame.f_code.co_filename):
+            return local
+        return None
+
+    seen = set()
+    for op in plan['ops']:
+        if op['op'] != 'call' or qkey(op['q']) in seen:
+            continue
+        seen.add(qkey(op['q']))
+        if op['q']['mc'] == 'LTL' or plan['structs'][op['q']['k']].get(
+                'large'):
+            continue
+        sys.settrace(glob)
+        try:
+            pool.call(op['q'])
+        except Exception:
+            pass
+        finally:
+            sys.settrace(None)
+        if len(harvested) >= 12:
+            break
+    out = dict(plan)
+    out['cfg'] = dict(plan['cfg'], feedback=False, feedback_done=True,
+                      harvested=harvested[:12])
+    if not harvested:
+        return out
+    rng = random.Random(plan['cfg']['fb_seed'])
+    formulas = list(plan['formulas'])
+    ops = list(plan['ops'])
+    calls = [dict(o['q']) for o in ops if o['op'] == 'call'
+             and 'mc' not in plan['formulas'][o['q']['f']]
+             and o['q']['mc'] != 'LTL'
+             and not plan['structs'][o['q']['k']].get('large')]
+    if not calls:
+        return out
+    # the names generated first are the ones a process without history
+    # would generate again
+    first = harvested[:5]
+    for h in rng.sample(first, min(3, len(first))):
+        q = dict(rng.choice(calls))
+        base = plan['formulas'][q['f']]
+        how = rng.choice(['and_not', 'or', 'replace'])
+        ats = core.formula_atoms(base['tree'])
+        if how == 'replace' and ats:
+            tree = core.rename_atoms(base['tree'], {rng.choice(ats): h})
+        elif how == 'or':
+            tree = ['Or', base['tree'], ['ap', h]]
+        else:
+            tree = ['And', base['tree'], ['Not', ['ap', h]]]
+        formulas.append({'logic': base['logic'], 'tree': tree,
+                         'text_ok': core.text_writable(tree),
+                         'feedback_of': h})
+        q['f'] = len(formulas) - 1
+        q['form'] = 'obj'
+        q['parser'] = 'none'
+        # once somewhere after the first third of the history, once at the end
+        pos = rng.randint(len(ops) // 3, len(ops))
+        # `mutate` operations refer to operation indices: shift them
+        ops = [dict(o, of=o['of'] + 1)
+               if o['op'] == 'mutate' and o['of'] >= pos else o
+               for o in ops]
+        ops.insert(pos, {'op': 'call', 'q': dict(q)})
+        ops.append({'op': 'call', 'q': dict(q)})
+    out['formulas'] = formulas
+    out['ops'] = ops
+    return out
+
 
 def _violates(plan, cls, timeout):
     st, res = run_isolated(execute, plan, timeout)
